@@ -334,6 +334,12 @@ def factory_rules(ctx, R, PR):
             atype = const_value(prog, f, c.args[0])
             if atype is not TOP and atype != "tag":
                 continue
+            if atype is TOP and isinstance(c.args[0], ast.Name):
+                # a type chosen per argument: when no assignment can give it the value "tag" the call never carries a tag
+                ds = [a for a in walk_no_nested(f.node) if isinstance(a, ast.Assign) and any(isinstance(t, ast.Name) and t.id == c.args[0].id for t in a.targets)]
+                vals = [const_value(prog, f, a.value) for a in ds]
+                if ds and all(isinstance(v, str) and v != "tag" for v in vals):
+                    continue
             n4 += 1
             recv = c.func.value if isinstance(c.func, ast.Attribute) else None
             tagexpr = c.args[1] if len(c.args) > 1 else None
